@@ -635,3 +635,42 @@ def upvar_resolve(F, body, operand, depth=0):
             if uv["name"] == name:
                 return upvar_resolve(F, parent, {"copy": uv["place"]}, depth + 1)
     return body, operand
+
+
+class RenamedReport:
+    """re-runs another property's rules under one rule id of the current property: obligations keep their text, keys get the original
+    rule number as prefix; `keep(rule)` selects which of the other property's rules are taken over"""
+    def __init__(self, inner, as_rule, keep=lambda r: True):
+        self._i = inner
+        self._as = as_rule
+        self._keep = keep
+
+    def __getattr__(self, k):
+        return getattr(self._i, k)
+
+    def rule(self, r, text):
+        pass
+
+    def trust(self, text):
+        pass
+
+    def ob(self, rule, key, ok, detail="", where=None, how=None):
+        if self._keep(rule):
+            return self._i.ob(self._as, rule.split(".", 1)[1] + "::" + key, ok, detail, where, how)
+
+    def fail(self, rule, key, detail, where=None):
+        if self._keep(rule):
+            return self._i.ob(self._as, rule.split(".", 1)[1] + "::" + key, False, detail, where)
+
+    def floor(self, rule, measured, floor, what="instances"):
+        if self._keep(rule.split(".")[0] + "." + rule.split(".")[1]):
+            return self._i.floor(self._as + "." + rule.split(".", 1)[1], measured, floor, what)
+
+
+def rerun_under(ctx, other_prop_fn, as_rule, keep=lambda r: True):
+    real = ctx.rep
+    ctx.rep = RenamedReport(real, as_rule, keep)
+    try:
+        other_prop_fn(ctx)
+    finally:
+        ctx.rep = real
